@@ -204,6 +204,33 @@ def main(argv):
     for mech, (k, rs) in listed.items():
         print(f"KNOWN-FINDING: property={prop} {k['text']} [{len(rs)} case(s) this run, e.g. {rs[0]['id']}]")
     rdir = os.path.join(os.environ.get("VERIF_REPLAY_DIR") or os.path.join(HOME, "replays"), prop)
+    # --- simulated-rank checks: an alarm must reproduce ----------------------------------------
+    # Ranks are threads of one process there, and torch's in-process backend is not free of thread-level races of its own
+    # (observed: pybind11 aborts, one unreproducible 2e-11 deviation in 5000 case-runs).  Every case is deterministic by
+    # construction (seeded inputs, logical interleavings), so a genuine violation reproduces when the case is re-run in a fresh
+    # process; an alarm that stays silent in 3 fresh re-runs is recorded as unreproduced (evidence + replay file), not reported.
+    unreproduced = []
+    if getattr(mod, "CONFIRM_BY_RERUN", False) and not replay and 0 < len(unlisted) <= 4:
+        confirmed = False
+        for r in unlisted:
+            for _attempt in range(3):
+                res2, _f2 = run_workers(prop, [by_id[r["id"]]], timeout, True, 1)
+                if any(x.get("status") == "violation" for x in res2):
+                    confirmed = True
+                    break
+            if confirmed:
+                break
+            unreproduced.append(r)
+        if confirmed:
+            unreproduced = []
+        else:
+            unlisted = []
+            os.makedirs(rdir, exist_ok=True)
+            for r in unreproduced:
+                path = os.path.join(rdir, f"_unreproduced_{r['id']}.json")
+                with open(path, "w") as f:
+                    json.dump({"property": prop, "tier": tier, "seed": seed, "case": by_id[r["id"]], "witness": r.get("witness")}, f, indent=1, default=str)
+                print(f"UNREPRODUCED-ALARM property={prop} case={r['id']} (silent in 3 fresh re-runs; witness in {os.path.relpath(path, HOME)}): {(r.get('witness') or {}).get('what')}")
     for r in unlisted[:25]:
         os.makedirs(rdir, exist_ok=True)
         path = os.path.join(rdir, f"{r['id']}.json")
@@ -256,6 +283,7 @@ def main(argv):
             cov["anchor_reach"] = reach_report
             cov["repo_lines_reached"] = len(reached)
         cov["known_findings_matched"] = {m: len(rs) for m, (k, rs) in listed.items()}
+        cov["unreproduced_alarms"] = [{"case": r["id"], "what": (r.get("witness") or {}).get("what")} for r in unreproduced]
         cov["inconclusive_reasons"] = reasons
         ev = {
             "property_id": prop,
